@@ -12,7 +12,7 @@ Clauses(e) ==
          lnprob_is_posterior   |-> e.mb_lnprob <= Tol_fit_consistency,
          inputs_reusable       |-> e.model_unchanged = TRUE /\ e.data_unchanged = TRUE /\ e.strategy_unchanged = TRUE,
          scratch_clean         |-> e.scratch_clean = TRUE,
-         repeatable            |-> e.mb_repeat <= Tol_fit_repeat ]
+         repeatable            |-> e.mb_repeat <= Tol_fit_repeat /\ e.same_pixels = TRUE ]
   ELSE IF e.event = "Reload"
   THEN [ loaded_equivalent |-> e.params_equal = TRUE /\ e.names_equal = TRUE /\ e.model_equal = TRUE
                                /\ e.strategy_equal = TRUE /\ e.mb_hologram <= Tol_fit_consistency
